@@ -12,6 +12,56 @@ def const_only(t):
                                              "uninit", "unknown", "field", "index"))
 
 
+def is_len(t):
+    t = strip_casts(t)[0]
+    return (t[0] == "call" and t[1].rsplit("::", 1)[-1] == "len" and len(t[2]) == 1) or t[0] == "len" or \
+        (t[0] == "bin" and t[1] in ("Add",) and is_len(t[2]) and is_len(t[3]))
+
+
+def sum_of_lengths(c):
+    """overflow flag of len(a) + len(b): lengths of sequences that exist in memory cannot add up to usize::MAX"""
+    t = c
+    if t[0] == "field" and t[3] == "1":
+        t = t[1]
+    return t[0] == "bin" and t[1] == "AddWithOverflow" and is_len(t[2]) and is_len(t[3])
+
+
+def upper_bound(t, depth=0):
+    """a static upper bound of an unsigned integer term, or None"""
+    if depth > 8 or not isinstance(t, tuple):
+        return None
+    if t[0] == "const" and isinstance(t[2], int):
+        return t[2]
+    if t[0] == "const" and isinstance(t[2], str) and t[2].endswith("::BITS"):
+        return 128
+    if t[0] == "cast":
+        return upper_bound(t[3], depth + 1)
+    if t[0] == "bin" and t[1] in ("Sub", "Div", "Rem", "Shr", "BitAnd"):
+        return upper_bound(t[2], depth + 1)          # unsigned: subtracting / dividing / masking only decreases
+    if t[0] == "bin" and t[1] in ("Mul", "Add"):
+        a, b = upper_bound(t[2], depth + 1), upper_bound(t[3], depth + 1)
+        return None if a is None or b is None else (a * b if t[1] == "Mul" else a + b)
+    if (t[0] == "call" and t[1].rsplit("::", 1)[-1] == "len") and t[2] and is_call(t[2][0], name="to_be_bytes"):
+        return 16
+    if t[0] == "some" and is_call(t[1], name="next"):
+        # element of a range: below its end
+        src = t[1][2][0]
+        while src[0] == "iter" or (src[0] == "call" and src[1].rsplit("::", 1)[-1] in ("rev", "into_iter")):
+            src = src[1] if src[0] == "iter" else src[2][0]
+        if src[0] == "agg" and (src[2] or "").endswith("Range"):
+            e = upper_bound(dict(src[4]).get("end"), depth + 1)
+            return None if e is None else max(e - 1, 0)
+    return None
+
+
+def shift_in_range(c):
+    """MIR asserts `amount < BITS` for a shift: discharge when a static upper bound of the amount is below the width"""
+    if c[0] == "bin" and c[1] == "Lt" and c[3][0] == "const" and isinstance(c[3][2], int):
+        ub = upper_bound(c[2])
+        return ub is not None and ub < c[3][2]
+    return False
+
+
 def arg_free(t):
     return not mentions(t, lambda s: s[0] in ("arg", "loopvar", "unknown", "uninit"))
 
@@ -86,6 +136,8 @@ def ob_multiscalar_callers(ctx, f, v, blocks):
 def ob_first_after_empty_return(ctx, f, v, blocks):
     """`nafs[0]` is reached only when `nafs.is_empty()` is false (an empty signing package reaches this code)"""
     zero_idx = {b for b in blocks if len(v.call_args(b)) > 1 and const(0)(v.call_args(b)[1])}
+    if not zero_idx:
+        return True     # no `[0]` indexing at all (e.g. `first()` is used): nothing to guard
     if len(zero_idx) != 1:
         return False
     edges = {e for (e, fa) in v.facts if fa[0] == "cond" and fa[1] == "empty" and not fa[4] and mentions(fa[2], arg(1))} | \
@@ -131,7 +183,8 @@ REVIEWED = {
         const(0)(v.call_args(b)[1]) and mentions(v.call_args(b)[0], lambda s: is_call(s, name="generate_secret_shares")) for b in bl)),
     ("keys::refresh::refresh_dkg_part1", "call:Vec::remove"): (1, "commitment produced by generate_secret_polynomial in the same call: >= 2 coefficients", lambda ctx, f, v, bl: all(const(0)(v.call_args(b)[1]) for b in bl)),
     ("keys::refresh::refresh_dkg_part2", "call:Vec::remove"): (1, "the identity coefficient was prepended to this vector earlier in the same call: non-empty", lambda ctx, f, v, bl: all(
-        const(0)(v.call_args(b)[1]) and mentions(v.call_args(b)[0], lambda s: is_call(s, name="chain")) for b in bl)),
+        const(0)(v.call_args(b)[1]) and mentions(v.call_args(b)[0], lambda s: is_call(s, name="chain") or
+                                                 (s[0] == "op" and s[1] == "insert")) for b in bl)),
     ("keys::repairable::repair_share_part1", "assert:overflow:Sub"): (1, "helpers.len() - 1: helpers contains the caller's identifier (non-empty) / has >= min_signers elements", ob_sep(
         cmp_fact("contains", arg(1), fld(arg(2), "identifier"), False))),
     # --- scalar_mul.rs (allows itself indexing): arithmetic relations between naf_length, num_limbs and pos
@@ -204,8 +257,20 @@ def run(ctx):
                 auto += 1
                 ctx.ok("PANIC-auto", f.key, "%s@argument-independent" % k, {"operand": fmt(a[0])[:120]})
                 continue
+            if k in ("call:Vec::insert",) and len(a) > 1 and const(0)(a[1]):
+                auto += 1
+                ctx.ok("PANIC-auto", f.key, "%s@index-0" % k)
+                continue
         else:
             c = v.cx.operand(t["cond"])
+            if k == "assert:overflow:Add" and sum_of_lengths(c):
+                auto += 1
+                ctx.ok("PANIC-auto", f.key, "%s@sum-of-in-memory-lengths" % k)
+                continue
+            if k in ("assert:overflow:Shl", "assert:overflow:Shr") and shift_in_range(c):
+                auto += 1
+                ctx.ok("PANIC-auto", f.key, "%s@shift-amount-below-width" % k, {"cond": fmt(c)[:120]})
+                continue
             if const_only(c):
                 auto += 1
                 ctx.ok("PANIC-auto", f.key, "%s@constant-operands" % k, {"cond": fmt(c)})
@@ -232,10 +297,10 @@ def run(ctx):
                           (k, short(fk), ", ".join(loc_of(f, b) for b in blocks)), loc_of(f, blocks[0]))
             continue
         cnt, why, ob = row
-        if len(blocks) != cnt:
+        if len(blocks) > cnt:
             ctx.violation("PANIC", where, k + ":multiplicity",
-                          "%d site(s) of kind %s in %s, %d reviewed (%s): a new site appeared or one was removed; "
-                          "re-review" % (len(blocks), k, short(fk), cnt, why), loc_of(f, blocks[0]))
+                          "%d site(s) of kind %s in %s, %d reviewed (%s): a new site appeared; re-review"
+                          % (len(blocks), k, short(fk), cnt, why), loc_of(f, blocks[0]))
             continue
         if ob is not None:
             v = FnView.get(P, f)
